@@ -393,7 +393,30 @@ func tryReplay(prog *Program, prop string, o *Obligation, verif string) (bool, s
 	switch kind {
 	case "safe":
 		if strings.Contains(res, "REPLAY-PANIC:") {
-			return true, transcript
+			// the panic must be the one the obligation rules out; a different
+			// panic on the same input belongs to another obligation
+			want := map[string][]string{
+				"safe:nil":        {"nil pointer dereference", "nil map"},
+				"safe:index":      {"index out of range"},
+				"safe:slice":      {"slice bounds out of range", "out of range"},
+				"safe:div":        {"divide by zero"},
+				"safe:typeassert": {"interface conversion"},
+			}
+			matched, known := false, false
+			for pre, subs := range want {
+				if strings.Contains(o.Name, "/"+pre) {
+					known = true
+					for _, sub := range subs {
+						if strings.Contains(res, sub) {
+							matched = true
+						}
+					}
+				}
+			}
+			if matched || !known {
+				return true, transcript
+			}
+			return false, transcript + "the real code panics on this input, but not with the panic this obligation excludes\n"
 		}
 	case "post":
 		if strings.Contains(res, "REPLAY-POST-VIOLATED") {
